@@ -178,6 +178,9 @@ static std::string do_api(std::istringstream& is) {
             else if (op == "ou") { try { f->open((TMPD + "/no-such-dir/x/out.blf").c_str(), std::ios_base::out); obs("ou", ""); } catch (Exception&) { obs("ou", " exc"); } }
             else if (op == "oi") { try { f->open(valid.c_str(), std::ios_base::in); obs("oi", ""); } catch (Exception&) { obs("oi", " exc"); } }
             else if (op == "oo") { try { f->open(outp.c_str(), std::ios_base::out); obs("oo", ""); } catch (Exception&) { obs("oo", " exc"); } }
+            else if (op == "ob") { try { f->open(outp.c_str(), std::ios_base::out | std::ios_base::binary); obs("ob", ""); } catch (Exception&) { obs("ob", " exc"); } }
+            else if (op == "ot") { try { f->open(outp.c_str(), std::ios_base::out | std::ios_base::trunc); obs("ot", ""); } catch (Exception&) { obs("ot", " exc"); } }
+            else if (op == "ib") { try { f->open(valid.c_str(), std::ios_base::in | std::ios_base::binary); obs("ib", ""); } catch (Exception&) { obs("ib", " exc"); } }
             else if (op == "r") { ObjectHeaderBase* o = f->read(); if (o) { delete o; obs("r", " obj"); } else obs("r", " null"); }
             else if (op == "w") { auto* a = new AppText; a->text = "history"; f->write(a); obs("w", ""); }
             else if (op == "c") { f->close(); obs("c", ""); }
